@@ -399,3 +399,16 @@ package client
 //@   ensures [queued-or-cancelled] ncmdqueued == old(ncmdqueued) + 1 || as(f, *future.Future).done
 //@   ensures [released] held == old(held)
 //@   modifies ncmdqueued, any(future.Future.result), any(future.Future.done), fclosed, held
+
+// dispatcher (C17, partial contract: only the order assertions below are
+// checked, see DESIGN): the service records a subscription before it sends
+// the SUBSCRIBE and drops it before it sends the UNSUBSCRIBE, so a connection
+// lost while the packet is written does not lose the call - the next
+// connection resubscribes from the record.
+//@ func (s *Service) dispatcher(client *Client, kill chan struct{}) (ok bool)
+//@   partial
+//@   at call 1 SubscribeMultiple assert [recorded-before-send] forall j int {cmd.subscriptions[j]} :: 0 <= j && j < len(cmd.subscriptions) ==> present[s.subscriptions][cmd.subscriptions[j].Topic]
+//@   at call 1 UnsubscribeMultiple assert [dropped-before-send] forall j int {cmd.topics[j]} :: 0 <= j && j < len(cmd.topics) ==> !present[s.subscriptions][cmd.topics[j]]
+//@   modifies everything
+//@   loop 2 invariant [recorded] 0 <= rangeindex + 1 && rangeindex + 1 <= len(cmd.subscriptions) && forall j int {cmd.subscriptions[j]} :: 0 <= j && j <= rangeindex ==> present[s.subscriptions][cmd.subscriptions[j].Topic]
+//@   loop 3 invariant [dropped] 0 <= rangeindex + 1 && rangeindex + 1 <= len(cmd.topics) && forall j int {cmd.topics[j]} :: 0 <= j && j <= rangeindex ==> !present[s.subscriptions][cmd.topics[j]]
